@@ -5,7 +5,8 @@
 //!   mm <query-hex> <pattern-hex>...          one PathMatcher holding all patterns (handler k = k-th insert, 1-based)
 //!   enum <seg,seg,..> <maxseg> <shard> <n>   all patterns x all queries built from <= maxseg segments; prints the
 //!                                            matching pairs of the patterns with index % n == shard, then totals
-//!   run <routes> <msgs>                      DispatchConn::run over a scripted connection (see checks/c19.py)
+//!   run <routes> <msgs>                      DispatchConn::run over a scripted connection (see checks/c19.py);
+//!        msg = serial;kind;object;sender;result;reply body;new routes;flags;destination;body string;byte order l|B
 use rbverif::{hex, unhex};
 use rustbus::connection::dispatch_conn::{
     DispatchConn, HandleEnvironment, HandleError, HandleFn, HandleResult, Matches, PathMatcher,
@@ -25,17 +26,32 @@ fn pad(buf: &mut Vec<u8>, a: usize) {
 fn put_u32(buf: &mut Vec<u8>, v: u32) {
     buf.extend_from_slice(&v.to_le_bytes());
 }
-fn field_str(buf: &mut Vec<u8>, code: u8, sig: u8, s: &[u8]) {
+/// u32 in the byte order of the message being built
+fn put_u32_bo(buf: &mut Vec<u8>, v: u32, big: bool) {
+    if big {
+        buf.extend_from_slice(&v.to_be_bytes());
+    } else {
+        buf.extend_from_slice(&v.to_le_bytes());
+    }
+}
+fn field_str(buf: &mut Vec<u8>, code: u8, sig: u8, s: &[u8], big: bool) {
     pad(buf, 8);
     buf.extend_from_slice(&[code, 1, sig, 0]);
-    put_u32(buf, s.len() as u32);
+    put_u32_bo(buf, s.len() as u32, big);
     buf.extend_from_slice(s);
     buf.push(0);
 }
-fn field_u32(buf: &mut Vec<u8>, code: u8, v: u32) {
+fn field_u32(buf: &mut Vec<u8>, code: u8, v: u32, big: bool) {
     pad(buf, 8);
     buf.extend_from_slice(&[code, 1, b'u', 0]);
-    put_u32(buf, v);
+    put_u32_bo(buf, v, big);
+}
+fn field_sig(buf: &mut Vec<u8>, code: u8, s: &[u8]) {
+    pad(buf, 8);
+    buf.extend_from_slice(&[code, 1, b'g', 0]);
+    buf.push(s.len() as u8);
+    buf.extend_from_slice(s);
+    buf.push(0);
 }
 
 struct Incoming {
@@ -43,46 +59,62 @@ struct Incoming {
     kind: char, // c call, k call that also carries a REPLY_SERIAL field, s signal, r method return, e error
     object: Option<Vec<u8>>,
     sender: Option<Vec<u8>>,
+    flags: u8,
+    destination: Option<Vec<u8>>,
+    body: Option<Vec<u8>>, // one string parameter (signature "s")
+    big_endian: bool,
 }
 
 fn encode(m: &Incoming) -> Vec<u8> {
+    let big = m.big_endian;
     let mut fields = Vec::new();
     // the fields region starts at offset 16 of the message: same alignment as a fresh buffer
     if let Some(o) = &m.object {
-        field_str(&mut fields, 1, b'o', o);
+        field_str(&mut fields, 1, b'o', o, big);
     }
     let typ = match m.kind {
         'c' | 'k' => {
-            field_str(&mut fields, 3, b's', b"M");
+            field_str(&mut fields, 3, b's', b"M", big);
             if m.kind == 'k' {
-                field_u32(&mut fields, 5, 999);
+                field_u32(&mut fields, 5, 999, big);
             }
             1
         }
         's' => {
-            field_str(&mut fields, 2, b's', b"verif.I");
-            field_str(&mut fields, 3, b's', b"M");
+            field_str(&mut fields, 2, b's', b"verif.I", big);
+            field_str(&mut fields, 3, b's', b"M", big);
             4
         }
         'e' => {
-            field_str(&mut fields, 4, b's', b"verif.Err");
-            field_u32(&mut fields, 5, 999);
+            field_str(&mut fields, 4, b's', b"verif.Err", big);
+            field_u32(&mut fields, 5, 999, big);
             3
         }
         _ => {
-            field_u32(&mut fields, 5, 999);
+            field_u32(&mut fields, 5, 999, big);
             2
         }
     };
-    if let Some(s) = &m.sender {
-        field_str(&mut fields, 7, b's', s);
+    if let Some(d) = &m.destination {
+        field_str(&mut fields, 6, b's', d, big);
     }
-    let mut buf = vec![b'l', typ, 0, 1];
-    put_u32(&mut buf, 0);
-    put_u32(&mut buf, m.serial);
-    put_u32(&mut buf, fields.len() as u32);
+    if let Some(s) = &m.sender {
+        field_str(&mut fields, 7, b's', s, big);
+    }
+    let mut body = Vec::new();
+    if let Some(b) = &m.body {
+        field_sig(&mut fields, 8, b"s");
+        put_u32_bo(&mut body, b.len() as u32, big);
+        body.extend_from_slice(b);
+        body.push(0);
+    }
+    let mut buf = vec![if big { b'B' } else { b'l' }, typ, m.flags, 1];
+    put_u32_bo(&mut buf, body.len() as u32, big);
+    put_u32_bo(&mut buf, m.serial, big);
+    put_u32_bo(&mut buf, fields.len() as u32, big);
     buf.extend_from_slice(&fields);
     pad(&mut buf, 8);
+    buf.extend_from_slice(&body);
     buf
 }
 
@@ -359,6 +391,10 @@ fn do_run(routes: &str, msgs: &str) -> String {
                 kind: f[1].chars().next().unwrap(),
                 object: opt_bytes(f[2]),
                 sender: opt_bytes(f[3]),
+                flags: f[7].parse().unwrap(),
+                destination: opt_bytes(f[8]),
+                body: opt_bytes(f[9]),
+                big_endian: f[10] == "B",
             });
             script.insert(
                 serial,
